@@ -36,6 +36,31 @@ CLAIMS = {
                      "dialect's own fixtures that mention the culprit segment's keywords with the real parser.",
                 note="Trusted: the rule model for AnyNumberOf/Delimited (union/repetition) and the graph walker; greedy partial matches "
                      "and reindent.py's consumer are outside. Template-block indents are covered by C01's balance oracle."),
+    "C07": dict(design_ref="§3 C07", technique=SYM,
+                text="(1) Real PlaceholderTemplater.process (+ TemplatedFile.__init__ checks) for <=2 (thorough 4) matched parameters at "
+                     "arbitrary spans over an opaque source of unbounded length: raw slices tile the source, templated slices tile the "
+                     "output, source slices in bounds, literal slices map to identical text. (2) PythonTemplater._slice_template with a "
+                     "contract-stubbed Formatter.parse: raw slices tile the true source length. (3) Real JinjaTracer.move_to_slice/"
+                     "record_trace and JinjaTemplater._rectify_templated_slices on 7 template shapes (if/elif/else, for, for+if, two ifs, "
+                     "nested if, set+macro) taken from the real analyzer, with EVERY raw-slice length, rendered length and rewrite delta "
+                     "symbolic: each recorded (and rectified) source slice is exactly its raw slice's original range; templated slices "
+                     "contiguous.",
+                note="Known findings F3 ({a:} python) and F5 (rewritten tag revisited in a loop) excluded by pattern. JinjaAnalyzer.analyze "
+                     "(Jinja's lexer), python slice_file heuristics and other template shapes are outside."),
+    "C08": dict(design_ref="§3 C08", technique="solver-based: z3 regex queries over the fast-path literal vs the live Jinja Environment + symlite on the gate condition",
+                text="The marker-free fast path of JinjaTemplater.process: z3 shows that no string without a match of the gate regex (read "
+                     "from the AST) contains a begin-delimiter of the LIVE Environment, that newline normalisation leaves no CR, and the "
+                     "six-flag gate condition is explored exhaustively on the real process(); live env facts keep_trailing_newline/"
+                     "newline_sequence are checked.",
+                note="Narrow claim: Jinja's own rendering semantics and that trace() returns render_func(raw_str) are outside."),
+    "C09": dict(design_ref="§3 C09", technique=SYM + "; plus z3 regex queries on the dot-notation re.sub pattern (read from the AST) with replay vs str.format",
+                text="(1) placeholder: output == source with each matched span replaced by its configured value or its name (quotation "
+                     "kept), for all spans/texts within <=2..4 parameters. (2) python dot-notation hack: z3 finds no valid format string "
+                     "(small alphabet, length<=8) without dotted fields that the hack rewrites, and no dotted field (length<=12) that it "
+                     "fails to rewrite; every model is replayed against the real templater vs a string.Formatter reference. (3) "
+                     "_slice_template tiling as in C07.",
+                note="Known findings F3, F4 (escaped braces) excluded by pattern; F19 (spec with whitespace) fixed. format_spec mini-language "
+                     "and conversions on dotted names are outside."),
     "C10": dict(design_ref="§3 C10/C11/C30", technique=SYM,
                 text="Bounded model checking of the real patch pipeline (generate_source_patches filter, merge_source_patches, "
                      "_slice_source_file_using_patches, _build_up_fixed_source_string) for ALL source lengths, slice boundaries, "
@@ -86,6 +111,6 @@ NOT_APPLICABLE = {
     "C16": "oracle is SQLite executing the query before/after; no solver model of SQL semantics is within reach",
     "C17": "fixpoint of the whole rule set over arbitrary SQL; not encodable",
 }
-for _p in ["C04", "C05", "C06", "C07", "C08", "C09", "C15", "C18", "C19", "C20", "C21", "C22",
+for _p in ["C04", "C05", "C06", "C15", "C18", "C19", "C20", "C21", "C22",
            "C24", "C25", "C26", "C27", "C28", "C32", "C34"]:
     NOT_APPLICABLE.setdefault(_p, "check not built yet (planned, see DESIGN.md §3); not claimed until its harness is committed")
